@@ -73,9 +73,13 @@ def ARG_INV(v, upto):
 
 SAFE_LOOP = ["0 <= i", "forall(q, offsets[i], length, result[q] == q)"]
 FULL_LOOP = SAFE_LOOP + ARG_INV("result", "i")
+# (the output is the vector `result`, copied element by element: the postcondition states the C06 facts about `result`
+#  -- restated once where the four branches join, then carried through the copy loop, which does not touch it -- and the
+#  pointwise equality with toptr; stating them about toptr directly is the same claim but needs a rewriting under three
+#  nested quantifiers that z3 only finds when the machine is idle)
 _FULL = {"loops": {"L0": FULL_LOOP, "L1": FULL_LOOP, "L2": FULL_LOOP, "L3": FULL_LOOP,
-                   "L4": ["0 <= i", "forall(k, 0, i, toptr[k] == result[k])"]},
-         "ensures_ok": ["forall(k, 0, length, toptr[k] == result[k])"] + ARG_INV("toptr", "offsetslength - 1")}
+                   "L4": ["0 <= i", "forall(k, 0, i, toptr[k] == result[k])"] + ARG_INV("result", "offsetslength - 1")},
+         "ensures_ok": ["forall(k, 0, length, toptr[k] == result[k])"] + ARG_INV("result", "offsetslength - 1")}
 
 # Memory safety (iterator ranges, comparator reads, the copy loop) for every instantiation; the functional contract for
 # three representative ones (a signed integer, a floating-point and the bool instantiation): the template text is the
